@@ -98,3 +98,6 @@ CONT_RULE = ("enumerated small inputs (all digraphs on <=3/4 nodes for scc; all 
              "one graph/document/history; distinct_nontrivial = number of cases.")
 for _p, _o in [("C11", ["c11"]), ("C12", ["c12"]), ("C13", ["c13"]), ("C18", ["c18"])]:
     PROPS[_p] = {"theorems": [], "oracles": _o, "rule": CONT_RULE, "exhaustive": True, "level_text": "", "level_note": CORR_NOTE, "technique": "", "design_ref": "DESIGN.md section 7, " + _p}
+
+import c14 as _c14
+PROPS["C14"] = {"theorems": [], "oracles": [], "rule": "", "custom": _c14.custom, "level_text": "", "level_note": CORR_NOTE, "technique": "", "design_ref": "DESIGN.md section 7, C14"}
